@@ -115,9 +115,8 @@ def runRot (args : List String) : String :=
     match k.toNat? with
     | some k =>
       let names := Generated.C11.rotNames
-      let e0 : Env := fun x => (names.idxOf x)
-      let e := rotateN Generated.C11.rotation k e0
-      "rot=" ++ ",".intercalate (names.map fun x => x ++ ":" ++ toString (e x))
+      let e := rotateN Generated.C11.rotation k (env0 names)
+      "rot=" ++ ",".intercalate (names.map fun x => x ++ ":" ++ toString (e.get x))
     | none => "bad-args"
   | _ => "bad-line"
 
